@@ -4,13 +4,14 @@ go 1.23.6
 
 require (
 	github.com/aptpod/iscp-go v0.0.0
+	github.com/coder/websocket v1.8.12
 	github.com/google/uuid v1.3.0
+	github.com/gorilla/websocket v1.4.2
 	github.com/quic-go/quic-go v0.50.0
 )
 
 require (
 	github.com/aptpod/iscp-proto v0.0.0-20230808235245-fada26057efa // indirect
-	github.com/coder/websocket v1.8.12 // indirect
 	github.com/gogo/protobuf v1.3.2 // indirect
 	github.com/quic-go/qpack v0.5.1 // indirect
 	github.com/quic-go/webtransport-go v0.8.1-0.20241018022711-4ac2c9250e66 // indirect
@@ -20,6 +21,7 @@ require (
 	golang.org/x/sync v0.11.0 // indirect
 	golang.org/x/sys v0.30.0 // indirect
 	golang.org/x/text v0.22.0 // indirect
+	nhooyr.io/websocket v1.8.10 // indirect
 )
 
 replace github.com/aptpod/iscp-go => /repo
